@@ -6,12 +6,12 @@
       req.payment_hash == old(w).hash
 //@ requires#exclusive
       !old(w).released
-//@ requires#no_rpc_under_lock [C14]
+//@ requires#no_rpc_under_lock [C14,C06]
       !old(w).lock_held
-//@ requires#write_ahead [C08]
+//@ requires#write_ahead [C08,C05]
 //    the in-flight marker is durable before the pay request is issued
       store_of(*old(w)) is Pending
-//@ requires#nothing_live [C05]
+//@ requires#nothing_live [C05,C08]
       !live(*old(w)) && !old(w).pay_running
 //@ requires#htlcs_still_held [C03,C02]
       old(w).resolved is None
@@ -31,7 +31,7 @@
 //@ requires#amount_rule [C03]
 //    the invoice's own amount for fixed-amount invoices, exactly the declared amount otherwise
       req.amount_msat == (if old(w).inv_amount is Some { None::<u64> } else { Some(old(w).amount) })
-//@ requires#pays_the_invoice_of_the_hash [C01,C03]
+//@ requires#pays_the_invoice_of_the_hash [C01,C03,C10,C05]
       req.bolt11@ == old(w).bolt11
 //@ ensures#rely_like
       rely_env(World { pay_running: true, ..*old(w) }, World { pay_running: true, ..*final(w) }) && ds_hash_unchanged(*old(w), *final(w))
@@ -47,7 +47,7 @@
 //@ ghostparam Tracked(w): Tracked<&mut World>
 //@ requires#hash
       payment_hash == old(w).hash
-//@ requires#no_rpc_under_lock [C14]
+//@ requires#no_rpc_under_lock [C14,C06]
       !old(w).lock_held
 //@ requires#no_pay_running
       !old(w).pay_running
